@@ -12,13 +12,17 @@ import (
 )
 
 type structInfo struct {
-	name     string
-	fields   []string
-	fieldIdx map[string]int // 1-based
-	mutexes  []string
-	primary  string // first declared mutex field ("" = none)
-	foreign  []string
-	elemPtr  map[string]bool // fields declared as map[..]*T / []*T: containers of pointers to shared records
+	name       string
+	fields     []string
+	fieldIdx   map[string]int // 1-based
+	mutexes    []string
+	primary    string // first declared mutex field ("" = none)
+	foreign    []string
+	elemPtr    map[string]bool   // fields declared as map[..]*T / []*T: containers of pointers to shared records
+	fieldTypes []string          // declared type of every field (source text), parallel to fields
+	embedded   map[string]bool   // embedded fields (name = last identifier of the type)
+	promoted   map[string]string // field promoted from an embedded struct of the same package -> the embedded field
+	embMutex   string            // an embedded sync.Mutex / sync.RWMutex: recv.Lock() is a lock operation on it
 }
 
 func (si *structInfo) fid(f string) int { return si.fieldIdx[f] }
@@ -101,12 +105,18 @@ type method struct {
 	closure                  []access
 }
 
+type lockHelper struct {
+	kind     string // acquire | release | releaser (acquires and returns the function that releases)
+	path, op string // op: Lock RLock Unlock RUnlock (for a releaser: the acquiring operation)
+}
+
 type typeFacts struct {
+	lockHelpers  map[string]lockHelper
 	returnsField map[string]string // method -> field: the method does nothing but `return recv.field` (maybe under its lock)
-	leanName string
-	si       *structInfo
-	methods  []*method
-	byName   map[string]*method
+	leanName     string
+	si           *structInfo
+	methods      []*method
+	byName       map[string]*method
 }
 
 func isMutexType(e ast.Expr) bool {
@@ -121,7 +131,7 @@ func isMutexType(e ast.Expr) bool {
 	return false
 }
 
-func findStruct(p *pkgSrc, name string) *structInfo {
+func findStructDecl(p *pkgSrc, name string) *ast.StructType {
 	for _, fn := range p.names {
 		for _, d := range p.files[fn].Decls {
 			gd, ok := d.(*ast.GenDecl)
@@ -130,54 +140,98 @@ func findStruct(p *pkgSrc, name string) *structInfo {
 			}
 			for _, sp := range gd.Specs {
 				ts := sp.(*ast.TypeSpec)
-				st, ok := ts.Type.(*ast.StructType)
-				if !ok || ts.Name.Name != name {
-					continue
+				if st, ok := ts.Type.(*ast.StructType); ok && ts.Name.Name == name {
+					return st
 				}
-				si := &structInfo{name: name, fieldIdx: map[string]int{}, elemPtr: map[string]bool{}}
-				for _, f := range st.Fields.List {
-					var names []string
-					if len(f.Names) == 0 { // embedded: name is the last identifier of the type
-						t := f.Type
-						if s, ok := t.(*ast.StarExpr); ok {
-							t = s.X
-						}
-						switch tt := t.(type) {
-						case *ast.SelectorExpr:
-							names = []string{tt.Sel.Name}
-						case *ast.Ident:
-							names = []string{tt.Name}
-						}
-					}
-					for _, n := range f.Names {
-						names = append(names, n.Name)
-					}
-					for _, n := range names {
-						si.fields = append(si.fields, n)
-						si.fieldIdx[n] = len(si.fields)
-						if isMutexType(f.Type) {
-							si.mutexes = append(si.mutexes, n)
-						}
-						switch ft := f.Type.(type) {
-						case *ast.MapType:
-							if _, ok := ft.Value.(*ast.StarExpr); ok {
-								si.elemPtr[n] = true
-							}
-						case *ast.ArrayType:
-							if _, ok := ft.Elt.(*ast.StarExpr); ok {
-								si.elemPtr[n] = true
-							}
-						}
-					}
-				}
-				if len(si.mutexes) > 0 {
-					si.primary = si.mutexes[0]
-				}
-				return si
 			}
 		}
 	}
 	return nil
+}
+
+func findStruct(p *pkgSrc, name string) *structInfo {
+	st := findStructDecl(p, name)
+	if st == nil {
+		return nil
+	}
+	si := &structInfo{name: name, fieldIdx: map[string]int{}, elemPtr: map[string]bool{}, embedded: map[string]bool{}, promoted: map[string]string{}}
+	addField := func(n string, typ ast.Expr, from string) {
+		if _, dup := si.fieldIdx[n]; dup {
+			return // shadowed by an outer field
+		}
+		si.fields = append(si.fields, n)
+		si.fieldTypes = append(si.fieldTypes, p.text(typ))
+		si.fieldIdx[n] = len(si.fields)
+		if from != "" {
+			si.promoted[n] = from
+		}
+		if isMutexType(typ) {
+			si.mutexes = append(si.mutexes, n)
+		}
+		switch ft := typ.(type) {
+		case *ast.MapType:
+			if _, ok := ft.Value.(*ast.StarExpr); ok {
+				si.elemPtr[n] = true
+			}
+		case *ast.ArrayType:
+			if _, ok := ft.Elt.(*ast.StarExpr); ok {
+				si.elemPtr[n] = true
+			}
+		}
+	}
+	var addStruct func(st *ast.StructType, from string, depth int)
+	addStruct = func(st *ast.StructType, from string, depth int) {
+		type emb struct {
+			name string
+			typ  *ast.Ident
+		}
+		var embs []emb
+		for _, f := range st.Fields.List {
+			if len(f.Names) == 0 { // embedded: name is the last identifier of the type
+				t := f.Type
+				if s, ok := t.(*ast.StarExpr); ok {
+					t = s.X
+				}
+				switch tt := t.(type) {
+				case *ast.SelectorExpr:
+					addField(tt.Sel.Name, f.Type, from)
+					if from == "" {
+						si.embedded[tt.Sel.Name] = true
+					}
+					if isMutexType(f.Type) && si.embMutex == "" {
+						si.embMutex = tt.Sel.Name
+					}
+				case *ast.Ident:
+					addField(tt.Name, f.Type, from)
+					if from == "" {
+						si.embedded[tt.Name] = true
+					}
+					embs = append(embs, emb{tt.Name, tt})
+				}
+				continue
+			}
+			for _, n := range f.Names {
+				addField(n.Name, f.Type, from)
+			}
+		}
+		// fields (and mutexes) of embedded structs declared in the same package are promoted
+		if depth < 3 {
+			for _, e := range embs {
+				if inner := findStructDecl(p, e.typ.Name); inner != nil {
+					top := from
+					if top == "" {
+						top = e.name
+					}
+					addStruct(inner, top, depth+1)
+				}
+			}
+		}
+	}
+	addStruct(st, "", 0)
+	if len(si.mutexes) > 0 {
+		si.primary = si.mutexes[0]
+	}
+	return si
 }
 
 func recvOf(fd *ast.FuncDecl) (name, typ string) {
@@ -202,7 +256,7 @@ func collectType(p *pkgSrc, name string) *typeFacts {
 	tf := &typeFacts{leanName: strings.ToLower(name[:1]) + name[1:], byName: map[string]*method{}}
 	tf.si = findStruct(p, name)
 	if tf.si == nil {
-		tf.si = &structInfo{name: name, fieldIdx: map[string]int{}, elemPtr: map[string]bool{}}
+		tf.si = &structInfo{name: name, fieldIdx: map[string]int{}, elemPtr: map[string]bool{}, embedded: map[string]bool{}, promoted: map[string]string{}}
 	}
 	for _, fn := range p.names {
 		for _, d := range p.files[fn].Decls {
@@ -220,6 +274,14 @@ func collectType(p *pkgSrc, name string) *typeFacts {
 			tf.byName[m.name] = m
 		}
 	}
+	choosePrimary(p, tf)
+	tf.lockHelpers = map[string]lockHelper{}
+	for _, m := range tf.methods {
+		hw := &walker{p: p, tf: tf, m: m, recv: m.recvName, alias: map[string]string{}, atomicAlias: map[string]string{}, lockAlias: map[string]string{}}
+		if h, ok := hw.lockHelperOf(); ok {
+			tf.lockHelpers[m.name] = h
+		}
+	}
 	tf.returnsField = map[string]string{}
 	for _, m := range tf.methods {
 		if f, ok := getterOf(m, tf.si); ok {
@@ -227,6 +289,10 @@ func collectType(p *pkgSrc, name string) *typeFacts {
 		}
 	}
 	for _, m := range tf.methods {
+		if _, isHelper := tf.lockHelpers[m.name]; isHelper {
+			m.lock = "none" // a lock helper is not judged on its own: its callers perform the lock operation
+			continue
+		}
 		w := &walker{p: p, tf: tf, m: m, recv: m.recvName, alias: map[string]string{}, atomicAlias: map[string]string{}, lockAlias: map[string]string{}}
 		w.prescan(m.decl.Body)
 		w.flowFunction()
@@ -304,7 +370,7 @@ type walker struct {
 	alias       map[string]string // local -> receiver field whose value it holds
 	atomicAlias map[string]string // local -> receiver field whose address it holds and that is used in atomic.* calls only
 	goCount     int
-	primary     string // this method's primary lock path
+	primary     string            // this method's primary lock path
 	lockAlias   map[string]string // local -> receiver mutex field whose address it holds (mu := &recv.mutex)
 	flowState
 }
@@ -349,6 +415,9 @@ func (w *walker) rootField(e ast.Expr) (field, rest string, ok bool) {
 		}
 		if f, r, ok := w.rootField(x.X); ok {
 			if r == "" {
+				if w.tf.si.embedded[f] && w.tf.si.promoted[x.Sel.Name] == f {
+					return x.Sel.Name, "", true // recv.Embedded.f is the promoted field recv.f
+				}
 				return f, x.Sel.Name, true
 			}
 			return f, r + "." + x.Sel.Name, true
@@ -425,19 +494,74 @@ func (w *walker) lockPath(e ast.Expr) string {
 		}
 		break
 	}
-	if id, ok := root.(*ast.Ident); ok && w.m.decl.Type.Params != nil {
-		i := 0
-		for _, f := range w.m.decl.Type.Params.List {
-			for _, n := range f.Names {
-				if n.Name == id.Name {
-					t := w.p.text(e)
-					return fmt.Sprintf("arg%d", i) + strings.TrimPrefix(t, id.Name)
-				}
-				i++
-			}
+	if id, ok := root.(*ast.Ident); ok {
+		// not the receiver: the lock is named by the TYPE of the object (which instance it is, is not tracked)
+		if t := w.localType(id.Name); t != "" {
+			return t + strings.TrimPrefix(w.p.text(e), id.Name)
 		}
 	}
 	return w.p.text(e)
+}
+
+func typeName(e ast.Expr) string {
+	if s, ok := e.(*ast.StarExpr); ok {
+		e = s.X
+	}
+	if id, ok := e.(*ast.Ident); ok {
+		return id.Name
+	}
+	return ""
+}
+
+// localType: the declared type of a parameter, or of a local defined from a same-receiver call, a composite
+// literal or a conversion - as far as the syntax tells
+func (w *walker) localType(name string) string {
+	if w.m.decl.Type.Params != nil {
+		for _, f := range w.m.decl.Type.Params.List {
+			for _, n := range f.Names {
+				if n.Name == name {
+					return typeName(f.Type)
+				}
+			}
+		}
+	}
+	typ := ""
+	ast.Inspect(w.m.decl.Body, func(n ast.Node) bool {
+		as, ok := n.(*ast.AssignStmt)
+		if !ok || as.Tok != token.DEFINE || len(as.Rhs) == 0 {
+			return true
+		}
+		for i, l := range as.Lhs {
+			id, ok := l.(*ast.Ident)
+			if !ok || id.Name != name {
+				continue
+			}
+			r := as.Rhs[0]
+			if len(as.Lhs) == len(as.Rhs) {
+				r = as.Rhs[i]
+			} else if i != 0 {
+				continue
+			}
+			switch x := r.(type) {
+			case *ast.UnaryExpr:
+				if cl, ok := x.X.(*ast.CompositeLit); ok && x.Op == token.AND {
+					typ = typeName(cl.Type)
+				}
+			case *ast.CompositeLit:
+				typ = typeName(x.Type)
+			case *ast.CallExpr:
+				if se, ok := x.Fun.(*ast.SelectorExpr); ok {
+					if rid, ok := se.X.(*ast.Ident); ok && rid.Name == w.recv {
+						if m := w.tf.byName[se.Sel.Name]; m != nil && m.decl.Type.Results != nil && len(m.decl.Type.Results.List) > 0 {
+							typ = typeName(m.decl.Type.Results.List[0].Type)
+						}
+					}
+				}
+			}
+		}
+		return true
+	})
+	return typ
 }
 
 // lockCall recognises `X.Lock()`, `X.RLock()`, `X.Unlock()`, `X.RUnlock()`.
@@ -452,7 +576,16 @@ func (w *walker) lockCall(e ast.Expr) (path, op string, ok bool) {
 	}
 	switch se.Sel.Name {
 	case "Lock", "RLock", "Unlock", "RUnlock":
+		if id, isID := se.X.(*ast.Ident); isID && id.Name == w.recv && w.tf.si.embMutex != "" {
+			return w.tf.si.embMutex, se.Sel.Name, true // promoted method of an embedded mutex
+		}
 		return w.lockPath(se.X), se.Sel.Name, true
+	}
+	// a same-receiver helper whose body only locks / unlocks a receiver mutex IS that lock operation
+	if id, isID := se.X.(*ast.Ident); isID && id.Name == w.recv {
+		if h, isHelper := w.tf.lockHelpers[se.Sel.Name]; isHelper && h.kind != "releaser" {
+			return h.path, h.op, true
+		}
 	}
 	return
 }
@@ -867,7 +1000,13 @@ func (w *walker) walkCall(x *ast.CallExpr, c wctx) {
 				args(0)
 				return
 			}
-			w.add("<promoted>", "call", c, fn.Sel.Name, x)
+			if owner := w.tf.embeddedMethodOwner(w.p, fn.Sel.Name); owner != "" {
+				// method promoted from an embedded struct of the same package: a call on the object in that field
+				w.add(owner, "read", c, "", x)
+				w.add(owner, "call", c, fn.Sel.Name, x)
+			} else {
+				w.add("<promoted>", "call", c, fn.Sel.Name, x)
+			}
 			args(0)
 			return
 		}
@@ -1247,7 +1386,12 @@ structure TypeInfo where
   fields : List String
   mutexes : List String
   primary : String
-  otherLocks : List String  -- lock expressions that are not receiver fields; subId = 1000 + index
+  otherLocks : List String  -- lock expressions that are not receiver fields; subId = 1000 + index. A lock reached
+                            -- through a parameter or a local of a known type is named Type.field: WHICH instance
+                            -- is locked is not tracked (the correspondence suites cover instance identity)
+  fieldTypes : List String  -- declared type of every field (source text), parallel to fields
+  promoted : List String    -- fields promoted from embedded structs of the same package
+  lockHelpers : List String -- methods whose body only locks / unlocks a receiver mutex: treated as that operation
   deriving DecidableEq, Repr
 
 `
@@ -1299,8 +1443,9 @@ func genLockFacts(util, logp, scp *pkgSrc) string {
 			ln = "mpt"
 		}
 		all = append(all, ln)
-		fmt.Fprintf(&sb, "def %sInfo : TypeInfo :=\n  { name := %s, fields := %s, mutexes := %s, primary := %s, otherLocks := %s }\n\n",
-			ln, leanStr(e.name), leanStrList(tf.si.fields), leanStrList(tf.si.mutexes), leanStr(tf.si.primary), leanStrList(tf.si.foreign))
+		fmt.Fprintf(&sb, "def %sInfo : TypeInfo :=\n  { name := %s, fields := %s, mutexes := %s, primary := %s, otherLocks := %s,\n    fieldTypes := %s, promoted := %s, lockHelpers := %s }\n\n",
+			ln, leanStr(e.name), leanStrList(tf.si.fields), leanStrList(tf.si.mutexes), leanStr(tf.si.primary), leanStrList(tf.si.foreign),
+			leanStrList(tf.si.fieldTypes), leanStrList(sortedKeys(tf.si.promoted)), leanStrList(sortedHelperNames(tf.lockHelpers)))
 		var ms []string
 		// sorted by name: the tables must not depend on the order of the declarations or on the file they are in
 		sorted := append([]*method(nil), tf.methods...)
@@ -1317,4 +1462,153 @@ func genLockFacts(util, logp, scp *pkgSrc) string {
 	sb.WriteString("/-- look a method up by name -/\ndef find? (tbl : List Method) (name : String) : Option Method := tbl.find? (fun m => m.name == name)\n\n")
 	sb.WriteString("end Verif.Gen.LockFacts\n")
 	return sb.String()
+}
+
+func sortedKeys(m map[string]string) []string {
+	var ks []string
+	for k := range m {
+		ks = append(ks, k)
+	}
+	sort.Strings(ks)
+	return ks
+}
+
+func sortedHelperNames(m map[string]lockHelper) []string {
+	var ks []string
+	for k := range m {
+		ks = append(ks, k)
+	}
+	sort.Strings(ks)
+	return ks
+}
+
+// lockHelperOf: the method's body only locks / unlocks one receiver mutex (and, for a releaser, returns the unlock)
+func (w *walker) lockHelperOf() (lockHelper, bool) {
+	body := w.m.decl.Body.List
+	recvLock := func(e ast.Expr) (string, string, bool) {
+		ce, ok := e.(*ast.CallExpr)
+		if !ok || len(ce.Args) != 0 {
+			return "", "", false
+		}
+		se, ok := ce.Fun.(*ast.SelectorExpr)
+		if !ok {
+			return "", "", false
+		}
+		switch se.Sel.Name {
+		case "Lock", "RLock", "Unlock", "RUnlock":
+		default:
+			return "", "", false
+		}
+		if id, isID := se.X.(*ast.Ident); isID && id.Name == w.recv && w.tf.si.embMutex != "" {
+			return w.tf.si.embMutex, se.Sel.Name, true
+		}
+		if f, r, ok := w.rootField(se.X); ok && r == "" && w.isMutexField(f) {
+			return f, se.Sel.Name, true
+		}
+		return "", "", false
+	}
+	if len(body) == 1 {
+		if es, ok := body[0].(*ast.ExprStmt); ok {
+			if p, op, ok := recvLock(es.X); ok {
+				if op == "Lock" || op == "RLock" {
+					return lockHelper{"acquire", p, op}, true
+				}
+				return lockHelper{"release", p, op}, true
+			}
+		}
+	}
+	if len(body) == 2 {
+		es, ok1 := body[0].(*ast.ExprStmt)
+		rs, ok2 := body[1].(*ast.ReturnStmt)
+		if ok1 && ok2 && len(rs.Results) == 1 {
+			p, op, ok := recvLock(es.X)
+			if !ok || (op != "Lock" && op != "RLock") {
+				return lockHelper{}, false
+			}
+			want := unlockOf(op)
+			switch r := rs.Results[0].(type) {
+			case *ast.SelectorExpr: // return recv.mu.Unlock
+				if r.Sel.Name == want {
+					if f, rest, ok := w.rootField(r.X); ok && rest == "" && f == p {
+						return lockHelper{"releaser", p, op}, true
+					}
+					if id, isID := r.X.(*ast.Ident); isID && id.Name == w.recv && w.tf.si.embMutex == p {
+						return lockHelper{"releaser", p, op}, true
+					}
+				}
+			case *ast.FuncLit: // return func() { recv.mu.Unlock() }
+				if len(r.Body.List) == 1 {
+					if ies, ok := r.Body.List[0].(*ast.ExprStmt); ok {
+						if p2, op2, ok := recvLock(ies.X); ok && p2 == p && op2 == want {
+							return lockHelper{"releaser", p, op}, true
+						}
+					}
+				}
+			}
+		}
+	}
+	return lockHelper{}, false
+}
+
+// embeddedMethodOwner: the embedded field whose (same-package) type declares method `name`
+func (tf *typeFacts) embeddedMethodOwner(p *pkgSrc, name string) string {
+	for _, fn := range p.names {
+		for _, d := range p.files[fn].Decls {
+			fd, ok := d.(*ast.FuncDecl)
+			if !ok || fd.Name.Name != name {
+				continue
+			}
+			if _, rt := recvOf(fd); rt != "" && tf.si.embedded[rt] {
+				return rt
+			}
+		}
+	}
+	return ""
+}
+
+// choosePrimary: the type's primary mutex is the mutex field most methods lock (ties: an RWMutex before a Mutex, then
+// by name) - not the first declared one, so that reordering the struct's fields changes nothing. `mutexes` is
+// reordered to [primary, the others sorted by name].
+func choosePrimary(p *pkgSrc, tf *typeFacts) {
+	si := tf.si
+	if len(si.mutexes) < 2 {
+		return
+	}
+	count := map[string]int{}
+	for _, m := range tf.methods {
+		w := &walker{p: p, tf: tf, m: m, recv: m.recvName, alias: map[string]string{}, atomicAlias: map[string]string{}, lockAlias: map[string]string{}}
+		w.tf.lockHelpers = map[string]lockHelper{}
+		w.prescan(m.decl.Body)
+		seen := map[string]bool{}
+		ast.Inspect(m.decl.Body, func(n ast.Node) bool {
+			if ce, ok := n.(*ast.CallExpr); ok {
+				if path, op, ok := w.lockCall(ce); ok && (op == "Lock" || op == "RLock") && !seen[path] {
+					seen[path] = true
+					count[path]++
+				}
+			}
+			return true
+		})
+	}
+	isRW := map[string]bool{}
+	for i, f := range si.fields {
+		if strings.Contains(si.fieldTypes[i], "RWMutex") {
+			isRW[f] = true
+		}
+	}
+	ms := append([]string(nil), si.mutexes...)
+	sort.SliceStable(ms, func(i, j int) bool {
+		a, b := ms[i], ms[j]
+		if count[a] != count[b] {
+			return count[a] > count[b]
+		}
+		if isRW[a] != isRW[b] {
+			return isRW[a]
+		}
+		return a < b
+	})
+	rest := append([]string(nil), ms[1:]...)
+	sort.Strings(rest)
+	si.mutexes = append([]string{ms[0]}, rest...)
+	si.primary = ms[0]
 }
